@@ -561,7 +561,16 @@ func (x *exec) serve(o Op) *rw {
 	if m == "" {
 		m = "GET"
 	}
-	x.mux.ServeHTTP(w, httptest.NewRequest(m, "/"+o.Ep, bytes.NewReader(x.bodyOf(o))))
+	func() {
+		// net/http answers a panicking handler by dropping the connection: recorded as status 599
+		defer func() {
+			if r := recover(); r != nil {
+				w.codes = append([]int{599}, w.codes...)
+				w.body.WriteString(fmt.Sprint(" PANIC: ", r))
+			}
+		}()
+		x.mux.ServeHTTP(w, httptest.NewRequest(m, "/"+o.Ep, bytes.NewReader(x.bodyOf(o))))
+	}()
 	return w
 }
 
